@@ -1,12 +1,15 @@
 package main
 
 // Monitor (e): hh.Service. Blocks may be discarded only for the documented
-// reasons. The service's purge ticker removes processors whose queue reports
-// Empty(); the harness holds the target node active and the data young, so
-// any removal of a queue with pending blocks is an undocumented discard.
+// reasons. The service's purge ticker closes and removes processors whose
+// queue reports Empty(); the harness keeps the target node active and the data
+// young, so an accepted block that is neither delivered nor on disk after
+// Service.Close() was discarded without a documented reason.
 
 import (
+	"encoding/binary"
 	"fmt"
+	"io"
 	"math/rand"
 	"os"
 	"path/filepath"
@@ -20,46 +23,65 @@ import (
 
 type svcWriter struct {
 	mu       sync.Mutex
-	gate     chan struct{} // first call waits here
+	okFirst  int  // this many calls succeed before the target "goes down"
+	up       bool // target is back
 	calls    int
 	failed   int
-	up       bool
 	got      map[uint64][]uint64 // node -> delivered ids
 	failedCh chan struct{}
 	once     sync.Once
 }
 
+func newSvcWriter(okFirst int, up bool) *svcWriter {
+	return &svcWriter{okFirst: okFirst, up: up, got: map[uint64][]uint64{}, failedCh: make(chan struct{})}
+}
+
 func (w *svcWriter) WriteShardBinary(shardID, ownerID uint64, points [][]byte) error {
 	w.mu.Lock()
-	first := w.calls == 0
-	w.calls++
-	w.mu.Unlock()
-	if first && w.gate != nil {
-		<-w.gate
-	}
-	w.mu.Lock()
 	defer w.mu.Unlock()
-	if !first && !w.up {
+	w.calls++
+	if !w.up && w.calls > w.okFirst {
 		w.failed++
 		w.once.Do(func() { close(w.failedCh) })
 		return errRetry
 	}
 	for _, pb := range points {
-		p, err := models.NewPointFromBytes(pb)
-		if err != nil {
-			continue
+		if id, ok := pointID(pb); ok {
+			w.got[ownerID] = append(w.got[ownerID], id)
 		}
-		f, _ := p.Fields()
-		v, _ := f["id"].(int64)
-		w.got[ownerID] = append(w.got[ownerID], uint64(v))
 	}
 	return nil
 }
 
-func (w *svcWriter) delivered(node uint64) []uint64 {
+func pointID(pb []byte) (uint64, bool) {
+	p, err := models.NewPointFromBytes(pb)
+	if err != nil {
+		return 0, false
+	}
+	f, err := p.Fields()
+	if err != nil {
+		return 0, false
+	}
+	v, ok := f["id"].(int64)
+	return uint64(v), ok
+}
+
+func (w *svcWriter) delivered() map[uint64]bool {
 	w.mu.Lock()
 	defer w.mu.Unlock()
-	return append([]uint64(nil), w.got[node]...)
+	out := map[uint64]bool{}
+	for _, l := range w.got {
+		for _, id := range l {
+			out[id] = true
+		}
+	}
+	return out
+}
+
+func (w *svcWriter) setUp() {
+	w.mu.Lock()
+	w.up = true
+	w.mu.Unlock()
 }
 
 func idPoint(id uint64) models.Point {
@@ -70,79 +92,129 @@ func idPoint(id uint64) models.Point {
 	return p
 }
 
-// runSvcPurge: three blocks are queued for an active node; the first delivery
-// succeeds, later ones fail retryably until the harness has seen one failure.
-// A send rate limit makes the processor pause right after its first Advance.
+// idsOnDisk reads, after the service is closed, every block still stored under
+// the hinted-handoff root and returns the harness ids found.
+func idsOnDisk(root string) map[uint64]bool {
+	out := map[uint64]bool{}
+	nodes, _ := os.ReadDir(root)
+	for _, n := range nodes {
+		shards, _ := os.ReadDir(filepath.Join(root, n.Name()))
+		for _, sh := range shards {
+			dir := filepath.Join(root, n.Name(), sh.Name())
+			q, err := hh.NewVerifQueue(dir, 1<<40, 8)
+			if err != nil || q.Open() != nil {
+				continue
+			}
+			eofs := 0
+			for guard := 0; guard < 100000 && eofs < 4; guard++ {
+				b, err := q.Current()
+				if err == io.EOF {
+					eofs++
+					q.Advance()
+					continue
+				}
+				if err != nil {
+					break
+				}
+				eofs = 0
+				if len(b) >= 8 {
+					blk := b[8:]
+					for len(blk) >= 4 {
+						k := int(binary.BigEndian.Uint32(blk[:4]))
+						if 4+k > len(blk) {
+							break
+						}
+						if id, ok := pointID(blk[4 : 4+k]); ok {
+							out[id] = true
+						}
+						blk = blk[4+k:]
+					}
+				}
+				q.Advance()
+			}
+			q.Close()
+		}
+	}
+	return out
+}
+
+// runSvcPurge: several blocks are queued for an active node; the first
+// delivery succeeds, later ones fail retryably until one failure was seen. A
+// send rate limit makes the processor pause right after its first Advance,
+// which is when the purge ticker asks the queue whether it is empty.
 func runSvcPurge(caseID string, seed int64, root string) {
 	g := rand.New(rand.NewSource(seed))
 	dir := filepath.Join(root, "svc-"+fmt.Sprint(seed&0xffffffffff))
 	os.RemoveAll(dir)
 	defer os.RemoveAll(dir)
-	nblocks := 3 + g.Intn(3)
+	nblocks := 3 + g.Intn(2)
 	r.Begin(caseID, map[string]interface{}{"seed": seed, "blocks": nblocks})
 	r.Eval(1)
 
 	cfg := hh.NewConfig()
 	cfg.Dir = dir
-	cfg.RetryInterval = toml.Duration(5 * time.Millisecond)
-	cfg.RetryMaxInterval = toml.Duration(10 * time.Millisecond)
-	cfg.PurgeInterval = toml.Duration(25 * time.Millisecond)
+	// NodeProcessor.run re-arms both timers on every pass, so the send timer only
+	// ever fires when it is shorter than the purge timer.
+	cfg.RetryInterval = toml.Duration(120 * time.Millisecond) // first send after all blocks are queued
+	cfg.RetryMaxInterval = toml.Duration(120 * time.Millisecond)
+	cfg.PurgeInterval = toml.Duration(170 * time.Millisecond)
 	cfg.MaxAge = toml.Duration(time.Hour)
 	cfg.RetryRateLimit = 1 // bytes per second: the send loop sleeps ~1s after a successful block
-	w := &svcWriter{gate: make(chan struct{}), got: map[uint64][]uint64{}, failedCh: make(chan struct{})}
+	w := newSvcWriter(1, false)
 	svc := hh.NewService(cfg, w)
 	svc.MetaClient = &metaDouble{active: 1}
 	if err := svc.Open(); err != nil {
 		r.Violation("C04/open-fails/service", caseID, "Service.Open failed: "+err.Error(), nil)
 		return
 	}
-	defer svc.Close()
+	closed := false
+	defer func() {
+		if !closed {
+			svc.Close()
+		}
+	}()
 	const shard, node = 7, 3
 	var accepted []uint64
-	for i := 0; i < nblocks; i++ {
+	refused := 0
+	for i := 0; len(accepted) < nblocks && i < nblocks+20; i++ {
 		id := uint64(i + 1)
 		if err := svc.WriteShard(shard, node, []models.Point{idPoint(id)}); err != nil {
-			close(w.gate)
-			harnessFatal("Service.WriteShard: %v", err)
+			refused++ // e.g. "node processor is closed": the ticker removed the still empty processor
+			continue
 		}
 		accepted = append(accepted, id)
 	}
 	qdir := filepath.Join(dir, fmt.Sprint(node), fmt.Sprint(shard))
-	close(w.gate) // let the first delivery succeed now that all blocks are queued
-
-	// wait until a later delivery has failed once (the pause after the first
-	// Advance is over), then bring the target back
-	purged := false
-	deadline := time.Now().Add(60 * time.Second)
-	failedSeen := false
-	for !failedSeen {
+	deadline := time.Now().Add(90 * time.Second)
+	gone := func() bool { _, err := os.Stat(qdir); return os.IsNotExist(err) }
+	// wait until a delivery has failed (the pause after the first Advance is over) or the queue vanished
+	for waiting := true; waiting; {
 		select {
 		case <-w.failedCh:
-			failedSeen = true
+			waiting = false
 		case <-time.After(5 * time.Millisecond):
-			if _, err := os.Stat(qdir); os.IsNotExist(err) {
-				purged = true
-				failedSeen = true
-			}
-			if time.Now().After(deadline) {
+			if gone() {
+				waiting = false
+			} else if time.Now().After(deadline) {
 				r.Inconclusive(caseID + ": no second delivery attempt within the watchdog")
 				return
 			}
 		}
 	}
-	w.mu.Lock()
-	w.up = true
-	w.mu.Unlock()
-	// now either everything is delivered or the queue directory disappears
+	w.setUp()
+	sawGone := false
 	for {
-		d := w.delivered(node)
-		if len(d) >= len(accepted) {
+		d := w.delivered()
+		all := true
+		for _, id := range accepted {
+			all = all && d[id]
+		}
+		if all {
 			break
 		}
-		if _, err := os.Stat(qdir); os.IsNotExist(err) {
-			purged = true
-			// give an in-flight delivery a moment to be recorded, then judge
-			time.Sleep(20 * time.Millisecond)
+		if gone() {
+			sawGone = true
+			time.Sleep(20 * time.Millisecond) // an in-flight delivery may still be recorded
 			break
 		}
 		if time.Now().After(deadline) {
@@ -151,38 +223,104 @@ func runSvcPurge(caseID string, seed int64, root string) {
 		}
 		time.Sleep(2 * time.Millisecond)
 	}
-	d := w.delivered(node)
-	got := map[uint64]bool{}
-	for _, id := range d {
-		got[id] = true
-	}
-	missing := 0
+	svc.Close()
+	closed = true
+	d, disk := w.delivered(), idsOnDisk(dir)
+	var lost []uint64
 	for _, id := range accepted {
-		if !got[id] {
-			missing++
+		if !d[id] && !disk[id] {
+			lost = append(lost, id)
 		}
 	}
 	r.Count("svc_purge_cases", 1)
-	if purged && missing > 0 {
-		r.Count("svc_nonempty_queue_purged", 1)
-		r.Violation("C04/service/nonempty-queue-purged-for-active-node", caseID,
-			fmt.Sprintf("the service's purge ticker removed the queue of an active node holding %d accepted, undelivered blocks younger than MaxAge (Empty() reported true right after an Advance)", missing),
-			map[string]interface{}{"case_seed": seed, "accepted": accepted, "delivered": d, "queue_dir": qdir,
-				"schedule": "WriteShard x n; first SendWrite succeeds and advances; send loop pauses (rate limit); purge ticker evaluates Empty(); next SendWrite fails retryably; processor closed and its directory removed"})
+	r.Count("svc_writes_refused", int64(refused))
+	if len(lost) > 0 {
+		sig := "C04/service/accepted-blocks-lost"
+		what := fmt.Sprintf("%d accepted blocks for an active node, younger than MaxAge, are neither delivered nor on disk after Service.Close()", len(lost))
+		if sawGone && d[accepted[0]] {
+			sig = "C04/service/nonempty-queue-purged-for-active-node"
+			what = fmt.Sprintf("the purge ticker removed the queue of an active node right after its first block was delivered and advanced, while %d accepted blocks younger than MaxAge were pending (Empty() reported true)", len(lost))
+			r.Count("svc_nonempty_queue_purged", 1)
+		}
+		r.Violation(sig, caseID, what, map[string]interface{}{"case_seed": seed, "accepted": accepted, "lost": lost, "queue_dir_removed": sawGone,
+			"schedule": "WriteShard x n; first SendWrite succeeds and advances; send loop pauses (retry-rate-limit); purge ticker evaluates Empty(); next SendWrite fails retryably; processor closed and its directory removed"})
 		return
 	}
-	if missing > 0 {
-		r.Violation("C04/service/accepted-blocks-not-delivered", caseID, fmt.Sprintf("%d accepted blocks were not delivered although the node is active and the queue still exists", missing), map[string]interface{}{"case_seed": seed, "accepted": accepted, "delivered": d})
+	r.Count("svc_all_accounted_for", 1)
+	r.Nontrivial(fmt.Sprintf("svc-purge|%d", nblocks))
+}
+
+// runSvcChurn: single blocks are written to queues that the purge ticker keeps
+// removing as soon as they are empty; the target always accepts. Every block
+// whose WriteShard returned nil must be delivered or still on disk.
+func runSvcChurn(caseID string, seed int64, root string) {
+	g := rand.New(rand.NewSource(seed))
+	dir := filepath.Join(root, "svh-"+fmt.Sprint(seed&0xffffffffff))
+	os.RemoveAll(dir)
+	defer os.RemoveAll(dir)
+	n := 60 + g.Intn(60)
+	r.Begin(caseID, map[string]interface{}{"seed": seed, "writes": n})
+	r.Eval(1)
+	cfg := hh.NewConfig()
+	cfg.Dir = dir
+	cfg.RetryInterval = toml.Duration(time.Millisecond)
+	cfg.RetryMaxInterval = toml.Duration(time.Millisecond)
+	cfg.PurgeInterval = toml.Duration(time.Duration(2+g.Intn(3)) * time.Millisecond)
+	cfg.MaxAge = toml.Duration(time.Hour)
+	w := newSvcWriter(0, true)
+	svc := hh.NewService(cfg, w)
+	svc.MetaClient = &metaDouble{active: 1}
+	if err := svc.Open(); err != nil {
+		r.Violation("C04/open-fails/service", caseID, "Service.Open failed: "+err.Error(), nil)
 		return
 	}
-	for i := range accepted {
-		if i >= len(d) || d[i] != accepted[i] {
-			// duplicates are possible only for a block re-sent after a failure; order must hold
-			break
+	var accepted []uint64
+	refused := 0
+	pairs := 1 + g.Intn(3)
+	for i := 0; i < n; i++ {
+		id := uint64(i + 1)
+		if err := svc.WriteShard(uint64(7+i%pairs), 3, []models.Point{idPoint(id)}); err != nil {
+			refused++
+			continue
+		}
+		accepted = append(accepted, id)
+		if g.Intn(3) == 0 {
+			time.Sleep(time.Duration(g.Intn(3000)) * time.Microsecond) // let queues drain and get purged
 		}
 	}
-	r.Count("svc_all_delivered", 1)
-	r.Nontrivial(fmt.Sprintf("svc-purge|%d", nblocks))
+	// give the send loops a moment (not a verdict: the accounting below is positive evidence)
+	deadline := time.Now().Add(5 * time.Second)
+	for time.Now().Before(deadline) {
+		d := w.delivered()
+		all := true
+		for _, id := range accepted {
+			all = all && d[id]
+		}
+		if all {
+			break
+		}
+		time.Sleep(5 * time.Millisecond)
+	}
+	svc.Close()
+	d, disk := w.delivered(), idsOnDisk(dir)
+	var lost []uint64
+	for _, id := range accepted {
+		if !d[id] && !disk[id] {
+			lost = append(lost, id)
+		}
+	}
+	r.Count("svc_churn_cases", 1)
+	r.Count("svc_churn_accepted", int64(len(accepted)))
+	r.Count("svc_writes_refused", int64(refused))
+	if len(lost) > 0 {
+		r.Violation("C04/service/block-lost-when-purge-ticker-removes-queue-during-write", caseID,
+			fmt.Sprintf("%d of %d blocks whose Service.WriteShard returned nil are neither delivered nor on disk after Service.Close(): the purge ticker saw an empty queue, a write was accepted, then the queue directory was removed", len(lost), len(accepted)),
+			map[string]interface{}{"case_seed": seed, "lost": trimU64(lost, 32), "accepted": len(accepted), "refused": refused})
+		return
+	}
+	if len(accepted) > 0 {
+		r.Nontrivial(fmt.Sprintf("svc-churn|%d|%d", pairs, n/20))
+	}
 }
 
 // runSvcRemove: RemoveNode may discard the removed node's blocks only.
@@ -199,21 +337,20 @@ func runSvcRemove(caseID string, seed int64, root string) {
 	cfg.RetryMaxInterval = toml.Duration(6 * time.Millisecond)
 	cfg.PurgeInterval = toml.Duration(time.Hour)
 	cfg.MaxAge = toml.Duration(time.Hour)
-	w := &svcWriter{got: map[uint64][]uint64{}, failedCh: make(chan struct{})}
-	w.calls = 1 // no gate; every call fails until up
+	w := newSvcWriter(0, false) // target down until the node removal is done
 	svc := hh.NewService(cfg, w)
 	svc.MetaClient = &metaDouble{active: 1}
 	if err := svc.Open(); err != nil {
 		r.Violation("C04/open-fails/service", caseID, "Service.Open failed: "+err.Error(), nil)
 		return
 	}
-	defer svc.Close()
 	n := 4 + g.Intn(8)
 	var keep []uint64
 	for i := 0; i < n; i++ {
 		id := uint64(i + 1)
 		node := uint64(2 + i%2)
 		if err := svc.WriteShard(7+uint64(i%3), node, []models.Point{idPoint(id)}); err != nil {
+			svc.Close()
 			harnessFatal("Service.WriteShard: %v", err)
 		}
 		if node == 3 {
@@ -221,32 +358,28 @@ func runSvcRemove(caseID string, seed int64, root string) {
 		}
 	}
 	if err := svc.RemoveNode(2); err != nil {
+		svc.Close()
 		r.Violation("C04/service/remove-node-error", caseID, "RemoveNode failed: "+err.Error(), nil)
 		return
 	}
-	w.mu.Lock()
-	w.up = true
-	w.mu.Unlock()
-	deadline := time.Now().Add(60 * time.Second)
-	for len(w.delivered(3)) < len(keep) {
-		if time.Now().After(deadline) {
-			d := w.delivered(3)
-			if _, err := os.Stat(filepath.Join(dir, "3")); os.IsNotExist(err) {
-				r.Violation("C04/service/remove-node-discarded-other-nodes-blocks", caseID, fmt.Sprintf("RemoveNode(2) left no queue for node 3, %d of its %d accepted blocks were never delivered", len(keep)-len(d), len(keep)), map[string]interface{}{"case_seed": seed})
-				return
-			}
-			r.Inconclusive(caseID + ": node 3 blocks not delivered within the watchdog")
-			return
+	w.setUp()
+	deadline := time.Now().Add(5 * time.Second)
+	for time.Now().Before(deadline) {
+		d := w.delivered()
+		all := true
+		for _, id := range keep {
+			all = all && d[id]
+		}
+		if all {
+			break
 		}
 		time.Sleep(2 * time.Millisecond)
 	}
-	got := map[uint64]bool{}
-	for _, id := range w.delivered(3) {
-		got[id] = true
-	}
+	svc.Close()
+	d, disk := w.delivered(), idsOnDisk(dir)
 	for _, id := range keep {
-		if !got[id] {
-			r.Violation("C04/service/remove-node-discarded-other-nodes-blocks", caseID, "a block queued for node 3 was lost when node 2 was removed", map[string]interface{}{"case_seed": seed})
+		if !d[id] && !disk[id] {
+			r.Violation("C04/service/remove-node-discarded-other-nodes-blocks", caseID, "a block queued for node 3 is neither delivered nor on disk after node 2 was removed", map[string]interface{}{"case_seed": seed})
 			return
 		}
 	}
